@@ -170,6 +170,7 @@ impl Property for C05 {
                 outcomes: vec![],
                 rlimit_stack: None,
                 env: None,
+                real: None,
                 note: if long { "long".into() } else { "short".into() },
             },
             plans,
@@ -559,13 +560,16 @@ fn sweep_scenario(mut i: u64) -> Sc {
     }
     Sc {
         base: XargsScenario {
-            opts: if i % 2 == 0 { vec![] } else { vec![Opt::L(1)] },
+            // -L 1 shows the argument sequence (concatenation) and the line
+            // structure (batch boundaries) at once
+            opts: vec![Opt::L(1)],
             cmd: cmd(),
             input: B(input),
             read_plan: vec![],
             outcomes: vec![],
             rlimit_stack: None,
             env: None,
+            real: None,
             note: "sweep".into(),
         },
         plans: vec![vec![], plan, plan2],
